@@ -1182,6 +1182,12 @@ def generate(repo, outdir):
     parts.append(fn(dc, "probes_from_flags", "probes_from_flags"))
     parts.append(fn("miniz_oxide/src/deflate/buffer.rs", "update_hash", "update_hash"))
     parts.append(fn("src/lib.rs", "mz_deflateBound", "mz_deflateBound"))
+    # C-ABI shim: flush value mapping and window-bits validation
+    src.scan_consts("src/lib_oxide.rs")
+    parts.append(emit_enum(src, "MZFlush"))
+    parts.append(emit_enum(src, "MZError"))
+    parts.append(fn("miniz_oxide/src/lib.rs", "new", "mzflush_new", impl="MZFlush"))
+    parts.append(fn("src/lib_oxide.rs", "invalid_window_bits", "invalid_window_bits"))
     write_if_changed(os.path.join(outdir, "GenZlib.v"), "\n\n".join(parts) + "\n")
 
     # ---- GenTables.v : decoder and encoder tables, sizes
@@ -1204,6 +1210,35 @@ def generate(repo, outdir):
     parts.append(emit_enum(src, "MZStatus"))
     parts.append(emit_enum(src, "MZError"))
     write_if_changed(os.path.join(outdir, "GenTables.v"), "\n\n".join(parts) + "\n")
+    # ---- GenSources.v : the text of every source file of the core crate (C20), one Coq string per line
+    srcdir = os.path.join(repo, "miniz_oxide", "src")
+    entries = []
+    out = ["(* GENERATED by translator/rs2v.py: the source text of miniz_oxide/src (C20) -- do not edit. *)",
+           "From Coq Require Import List String.", "Import ListNotations.", "Local Open Scope string_scope.", ""]
+    for root, dirs, files in sorted(os.walk(srcdir)):
+        dirs.sort()
+        for fn in sorted(files):
+            if not fn.endswith(".rs"):
+                continue
+            rel = os.path.relpath(os.path.join(root, fn), os.path.join(repo, "miniz_oxide"))
+            ident = "src_" + re.sub(r"[^A-Za-z0-9]", "_", rel)
+            with open(os.path.join(root, fn), "rb") as f:
+                raw = f.read()
+            lines = raw.split(b"\n")
+            out.append("Definition %s : list string := [" % ident)
+            enc = []
+            for ln in lines:
+                t = "".join(chr(b) if 32 <= b < 127 else ("?" if b >= 127 else " ") for b in ln.rstrip(b"\r"))
+                enc.append('  "%s"' % t.replace('"', '""'))
+            out.append(";\n".join(enc))
+            out.append("].")
+            out.append("")
+            entries.append((rel, ident))
+    out.append("Definition sources : list (string * list string) := [")
+    out.append(";\n".join('  ("%s", %s)' % (rel, ident) for rel, ident in entries))
+    out.append("].")
+    write_if_changed(os.path.join(outdir, "GenSources.v"), "\n".join(out) + "\n")
+    report["sources"] = len(entries)
     report["consts"] = len(src.consts)
     report["arrays"] = len(src.arrays)
     return report
